@@ -3,6 +3,8 @@ import PbBss.Proofs.EmGauss
 import PbBss.Proofs.EmWatson
 import PbBss.Proofs.GaussM
 import PbBss.Proofs.EmCacg
+import PbBss.Proofs.EmNonVacuous
+import PbBss.Proofs.EmFull
 /-! # C02 — EM iterations never decrease the mixture log-likelihood
 
 Statements only (helper lemmas: `PbBss/Proofs/{Em,EmProof,EmMono,EmGauss,EmWatson,EmCacg,GaussM,TrLogDet}.lean`).
@@ -20,9 +22,8 @@ quantity is the saliency-weighted log-likelihood `Σ_n s_n log Σ_k π_k p_k(y_n
 
 Gaps (not theorems here): (a) the Watson concentration in the code is a *spline* approximation of the exact inverse
 hypergeometric ratio — `TangentAt` states the exact M-step condition, and convexity of `log ₁F₁(1;D;·)` is not in
-Mathlib (`tangent_of_convex` reduces `TangentAt` to `ConvexOn` + `HasDerivAt`); (b) the full-covariance Gaussian M-step
-is proved at the matrix level (`gaussian_full_crux`) but the full-covariance family is not part of the executable EM
-model; (c) floating-point rounding. -/
+Mathlib (`tangent_of_convex` reduces `TangentAt` to `ConvexOn` + `HasDerivAt`); (b) GCACGMM is covered by the product-family lemma (`product_mstep_Q`) but is not an instance of the executable EM
+model (its trajectories are judged by the search on the real code); (c) floating-point rounding. -/
 namespace PbBss.C02
 open PbBss PbBss.Em PbBss.EmProof PbBss.EmCacg Finset
 
@@ -123,6 +124,18 @@ theorem diag_mstep_Q (tiny log2pi : ℝ) (c aux : Fin N → ℝ) (y : Fin N → 
     compQ (diagFamily D tiny log2pi) c y θ
       ≤ compQ (diagFamily D tiny log2pi) c y ((diagFamily D tiny log2pi).mstep N c aux y) :=
   diag_mstep_improves tiny log2pi c aux y θ ht hC hv hv'
+
+/-- full-covariance Gaussian (`covariance_type='full'`, the default): exact M-step.  `pchol` is sklearn's precision
+Cholesky routine with the contract `PcholOk` (upper triangular `P`, positive diagonal, `(P Pᵀ) Σ = 1`,
+`ℓ = Σ_d log P_dd`); positive definiteness of the new covariance follows from the contract holding on it. -/
+theorem full_mstep_Q (pchol : Tab D (Tab D ℝ) → Tab D (Tab D ℝ) × ℝ) (tiny log2pi : ℝ)
+    (c aux : Fin N → ℝ) (y : Fin N → Fin D → ℝ) (θ : FullG ℝ D)
+    (ht : 0 < tiny) (hc : ∀ n, 0 ≤ c n) (hC : tiny ≤ ∑ n, c n)
+    (hP : PcholOk θ.cov (pchol θ.cov))
+    (hP' : PcholOk (fullMstep tiny N c aux y).cov (pchol (fullMstep tiny N c aux y).cov)) :
+    compQ (fullFamily D pchol tiny log2pi) c y θ
+      ≤ compQ (fullFamily D pchol tiny log2pi) c y ((fullFamily D pchol tiny log2pi).mstep N c aux y) :=
+  full_mstep_improves_of_nonneg pchol tiny log2pi c aux y θ ht hc hC hP hP'
 
 /-- complex Watson: principal eigenvector (`get_pca` contract) + exact inverse hypergeometric ratio (`TangentAt`) -/
 theorem watson_mstep_Q (pca : Tab D (Tab D ℂ) → Tab D ℂ × ℝ) (kinv lnorm : ℝ → ℝ) (c aux : Fin N → ℝ)
@@ -252,6 +265,35 @@ theorem em_monotone_gmm_diagonal (tiny log2pi : ℝ) (rule : WeightRule) (tie : 
   rw [fit_succ_c tiny _ rule tie eps s y γ₀ i hi1 htiny (hclamp i h1 h2) k] at this
   exact this
 
+/-- **GMM, full covariances** (the default `covariance_type`): along any stretch of one fit on which every class keeps
+mass `≥ tiny` and sklearn's precision-Cholesky routine meets its contract on every class covariance (which includes:
+the covariance is positive definite — data in general position), the log-likelihood never decreases. -/
+theorem em_monotone_gmm_full (tiny log2pi : ℝ) (pchol : Tab D (Tab D ℝ) → Tab D (Tab D ℝ) × ℝ)
+    (rule : WeightRule) (tie : Tying N) (eps : ℝ)
+    (s : Fin N → ℝ) (y : Fin N → Fin D → ℝ) (γ₀ : Fin (K+1) → Fin N → ℝ) (htiny : 0 < tiny) (hs : ∀ n, 0 ≤ s n)
+    (heps : 0 ≤ eps) (hrule : rule = .mean → ∀ n, s n = 1)
+    (hγ₀ : ∀ k n, 0 ≤ γ₀ k n) (hγ₀1 : ∀ n, ∑ k, γ₀ k n ≤ 1) (a b : Nat) (ha : 1 ≤ a) (hab : a ≤ b)
+    (hw : ∀ i, a ≤ i → i ≤ b → ∀ k n, 0 < (fit tiny (fullFamily D pchol tiny log2pi) rule tie eps s y i γ₀).w k n)
+    (hclamp : ∀ i, a ≤ i → i < b → ClampFree tiny (fullFamily D pchol tiny log2pi)
+      (fit tiny (fullFamily D pchol tiny log2pi) rule tie eps s y i γ₀) y)
+    (hmass : ∀ i, a ≤ i → i < b → ∀ k, tiny ≤ ∑ n, post (fullFamily D pchol tiny log2pi)
+      (fit tiny (fullFamily D pchol tiny log2pi) rule tie eps s y i γ₀) y k n * s n)
+    (hchol : ∀ i, a ≤ i → i ≤ b → ∀ k,
+      PcholOk ((fit tiny (fullFamily D pchol tiny log2pi) rule tie eps s y i γ₀).c k).cov
+        (pchol ((fit tiny (fullFamily D pchol tiny log2pi) rule tie eps s y i γ₀).c k).cov)) :
+    logLik (fullFamily D pchol tiny log2pi) s (fit tiny (fullFamily D pchol tiny log2pi) rule tie eps s y a γ₀) y
+      ≤ logLik (fullFamily D pchol tiny log2pi) s (fit tiny (fullFamily D pchol tiny log2pi) rule tie eps s y b γ₀) y := by
+  refine EmProof.em_monotone tiny _ rule tie eps s y γ₀ htiny hs heps hrule hγ₀ hγ₀1 a b ha hab hw hclamp ?_
+  intro i h1 h2 k
+  have hi1 : 1 ≤ i := le_trans ha h1
+  have hpost0 : ∀ n, 0 ≤ post (fullFamily D pchol tiny log2pi)
+      (fit tiny (fullFamily D pchol tiny log2pi) rule tie eps s y i γ₀) y k n * s n :=
+    fun n => mul_nonneg (post_pos _ _ y (hw i h1 h2.le) k n).le (hs n)
+  refine full_mstep_improves_of_nonneg pchol tiny log2pi _ _ y _ htiny hpost0 (hmass i h1 h2 k) (hchol i h1 h2.le k) ?_
+  have := hchol (i+1) (by omega) (by omega) k
+  rw [fit_succ_c tiny _ rule tie eps s y γ₀ i hi1 htiny (hclamp i h1 h2) k] at this
+  exact this
+
 /-- **cWMM**: with `get_pca` meeting its contract on every scatter it is handed, a concentration map `kinv ≥ 0`, and the
 exact (unclipped) concentration update on the stretch (`TangentAt`), the log-likelihood never decreases. -/
 theorem em_monotone_cwmm (tiny : ℝ) (pca : Tab D (Tab D ℂ) → Tab D ℂ × ℝ) (kinv lnorm : ℝ → ℝ)
@@ -340,6 +382,28 @@ example : (0 : ℝ) < 1e-10 ∧ (1e-10 : ℝ) ≤ ∑ n : Fin 2, (fun _ => (1 : 
   refine ⟨by norm_num, by norm_num, by norm_num, by norm_num, ?_⟩
   simp [sphMstep, gaussMean, vsum_eq_sum, Fin.sum_univ_two]
   norm_num
+
+/-- **Every hypothesis of `em_monotone_gmm_spherical` is met by a concrete trajectory** with `a = 1 < b = 3` (one class,
+observations `0, 2`, unit saliency; `PbBss/Proofs/EmNonVacuous.lean` computes every iterate: weight 1, mean 1,
+variance 1), so the monotonicity theorem is not vacuous. -/
+example :
+    let tiny : ℝ := 1e-10
+    let fam := sphFamily (α := ℝ) 1 tiny 1
+    let fitI := fun i => fit (K := 0) tiny fam .unitNorm NV.tie (1e-10) (fun _ => 1) NV.y i (fun _ _ => 1)
+    (∀ i, 1 ≤ i → i ≤ 3 → ∀ k n, 0 < (fitI i).w k n) ∧
+    (∀ i, 1 ≤ i → i < 3 → ClampFree tiny fam (fitI i) NV.y) ∧
+    (∀ i, 1 ≤ i → i < 3 → ∀ k, tiny ≤ ∑ n, post fam (fitI i) NV.y k n * 1) ∧
+    (∀ i, 1 ≤ i → i ≤ 3 → ∀ k, 0 < ((fitI i).c k).var) := by
+  intro tiny fam fitI
+  have h : ∀ i, 1 ≤ i → fitI i = NV.θs := NV.fitN_eq
+  refine ⟨fun i h1 _ k n => ?_, fun i h1 _ => ?_, fun i h1 _ k => ?_, fun i h1 _ k => ?_⟩
+  · rw [h i h1]; exact NV.w_pos k n
+  · rw [h i h1]; exact NV.clampFree
+  · rw [h i h1]
+    have hk : k = 0 := Fin.ext (by omega)
+    subst hk
+    exact NV.mass
+  · rw [h i h1]; exact NV.var_pos k
 
 /-- `TangentAt` is satisfiable: `f x = x²` at `x0 = 1` with slope `2` -/
 example : TangentAt (fun x : ℝ => x ^ 2) 1 2 := by
